@@ -13,6 +13,7 @@ import (
 	"bufio"
 	"bytes"
 	"context"
+	"encoding/binary"
 	"encoding/hex"
 	"encoding/json"
 	"fmt"
@@ -30,6 +31,60 @@ import (
 	"github.com/ipld/go-storethehash/store/types"
 	"github.com/ipld/go-storethehash/store/verifhook"
 )
+
+// freeCensus reads, after the final Close and reopen (all pools written, nothing running), which primary locations the index names for the
+// keys of the scenario, which the freelist (file and .gc work file) holds, and which records of the primary files are live or marked deleted.
+func freeCensus(dir string, st *store.Store, keys [][]byte, pmax int64) map[string]interface{} {
+	readFree := func(p string) []string {
+		fl, _ := os.ReadFile(p)
+		out := []string{}
+		for q := 0; q+12 <= len(fl); q += 12 {
+			out = append(out, fmt.Sprintf("%d:%d", binary.LittleEndian.Uint64(fl[q:]), binary.LittleEndian.Uint32(fl[q+8:])))
+		}
+		return out
+	}
+	cur := []string{}
+	for _, k := range keys {
+		ik, err := st.Primary().IndexKey(k)
+		if err != nil {
+			continue
+		}
+		blk, found, err := st.Index().Get(ik)
+		if err != nil || !found {
+			continue
+		}
+		// the index stores prefixes: the entry belongs to k only if the record there carries k
+		pk, err := st.Primary().GetIndexKey(blk)
+		if err == nil && bytes.Equal(pk, ik) {
+			cur = append(cur, fmt.Sprintf("%d:%d", blk.Offset, blk.Size))
+		}
+	}
+	busy, dead := map[string][]string{}, map[string][]string{}
+	ents, _ := os.ReadDir(dir)
+	for _, e := range ents {
+		var n int
+		if _, err := fmt.Sscanf(e.Name(), "d.%d", &n); err != nil || e.Name() != fmt.Sprintf("d.%d", n) {
+			continue
+		}
+		data, _ := os.ReadFile(filepath.Join(dir, e.Name()))
+		name := strconv.Itoa(n)
+		busy[name], dead[name] = []string{}, []string{}
+		pos := 0
+		for pos+4 <= len(data) {
+			raw := binary.LittleEndian.Uint32(data[pos:])
+			sz := int(raw &^ (1 << 31))
+			ent := fmt.Sprintf("%d:%d", int64(n)*pmax+int64(pos), sz)
+			if raw&(1<<31) != 0 {
+				dead[name] = append(dead[name], ent)
+			} else {
+				busy[name] = append(busy[name], ent)
+			}
+			pos += 4 + sz
+		}
+	}
+	return map[string]interface{}{"current": cur, "free_file": readFree(filepath.Join(dir, "i.free")), "free_gc": readFree(filepath.Join(dir, "i.free.gc")),
+		"busy": busy, "dead": dead, "idx_ref": []int{}, "files": map[string]int64{}}
+}
 
 type opT struct {
 	Kind string
@@ -432,6 +487,7 @@ wait:
 	final := map[string]string{}
 	finalFlushed := map[string]string{}
 	finalReopened := map[string]string{}
+	var census map[string]interface{}
 	if len(stuck) == 0 && !closing {
 		seen := map[string]bool{}
 		var keys [][]byte
@@ -476,6 +532,7 @@ wait:
 				finalReopened["open"] = "ERR:" + err.Error()
 			} else {
 				readAll(s2, finalReopened)
+				census = freeCensus(dir, s2, append(keys, []byte{0x12, 6, 9, 9, 9, 0xfe, 0xfe, 0xfe}), int64(atoi("pmax")))
 				s2.Close()
 			}
 		}
@@ -497,7 +554,7 @@ wait:
 		outs = append(outs, tout{t.Name, t.Op.Kind, hex.EncodeToString(t.Op.Key), hex.EncodeToString(t.Op.Val), t.Status, t.Res, t.Found, t.Out, t.Start, t.End})
 	}
 	var sb bytes.Buffer
-	json.NewEncoder(&sb).Encode(map[string]interface{}{"threads": outs, "stuck": stuck, "events": log, "final": final, "final_flushed": finalFlushed, "final_reopened": finalReopened, "flushes_in_free_run": nflush,
+	json.NewEncoder(&sb).Encode(map[string]interface{}{"threads": outs, "stuck": stuck, "events": log, "final": final, "final_flushed": finalFlushed, "final_reopened": finalReopened, "census": census, "flushes_in_free_run": nflush,
 		"quiet_timeouts": quietTimeouts, "unfinished_at_free_run": unfinishedAtFreeRun, "must_release": mustRelease, "unreleased": unreleased})
 	os.Stdout.Write(sb.Bytes())
 	if len(stuck) > 0 {
